@@ -84,7 +84,7 @@ func (e diskEngine) Plan(tier string) []Phase {
 		if tier == "thorough" {
 			return []Phase{{Mode: "scaling", Count: len(scaleShapes)}, {Mode: "depth", Count: len(depthShapes)}, {Mode: "paths", Count: pathEnumCount(3)}, {Mode: "truncate", Count: truncateCount()}, {Mode: "random", Share: 0.7}, {Mode: "sweep", Share: 0.3}}
 		}
-		// "paths": every URL path of 1-2 (thorough: 1-3) segments over an alphabet of 21 unusual segments, in six settings
+		// "paths": every URL path of 1-2 (thorough: 1-3) segments over an alphabet of 21 unusual segments, in eight settings
 		// "depth": one construct nested 100 000 levels deep per job (recursion that follows the input)
 		return []Phase{{Mode: "scaling", Count: len(scaleShapes)}, {Mode: "depth", Count: len(depthShapes)}, {Mode: "paths", Count: pathEnumCount(2)}, {Mode: "truncate", Count: truncateCount()}, {Mode: "random", Share: 0.85}, {Mode: "sweep", Share: 0.15}}
 	}
